@@ -430,7 +430,7 @@ fn build_sources(opts: &Opts, rng: &mut Rng) -> Vec<(String, Layout, Vec<Vec<Key
     let ms = h_layouts::enumerated_mappings();
     // all 1 428 single-mapping layouts, and every `stride`-th of the 2.04 M ordered pairs (the offset
     // moves with the seed, so different seeds cover different pairs; stride 1 = the whole family)
-    let stride = opts.num("enum-stride", 97) as usize;
+    let stride = opts.num("enum-stride", 997) as usize;
     let offset = (opts.num("seed", 1) as usize) % stride.max(1);
     let mut idx = 0usize;
     for m in &ms {
@@ -447,7 +447,7 @@ fn build_sources(opts: &Opts, rng: &mut Rng) -> Vec<(String, Layout, Vec<Vec<Key
     }
   }
   if want("random") {
-    let n = opts.num("random", if thorough { 12000 } else { 600 });
+    let n = opts.num("random", if thorough { 2400 } else { 600 });
     for i in 0..n {
       if i % 3 == 2 {
         res.push((format!("random:absrich:{}", i), h_layouts::absorbing_rich_layout(rng), vec![]));
@@ -473,6 +473,9 @@ pub fn run(opts: &Opts) -> i32 {
   let sources = Arc::new(build_sources(opts, &mut rng));
   let max_held = opts.num("max-held", if thorough { 4 } else { 3 }) as usize;
   let max_states = opts.num("max-states", if thorough { 60000 } else { 4000 }) as usize;
+  // generated layouts (random, enumerated) are many and small: a lower per-layout cap keeps the thorough
+  // tier at minutes instead of days
+  let max_states_generated = opts.num("max-states-generated", if thorough { 8000 } else { 4000 }) as usize;
   let jobs = opts.num("jobs", 8) as usize;
   let out_dir = opts.get_or("out", "/verif/harness/tmp/mapper").to_string();
   let _ = std::fs::create_dir_all(&out_dir);
@@ -496,8 +499,9 @@ pub fn run(opts: &Opts) -> i32 {
         stats.layouts += 1;
         let class = name.split(':').next().unwrap_or("?").to_string();
         let before = stats.transitions;
+        let cap = if class == "random" || class == "enum" { max_states_generated } else { max_states };
         for a in alphabets {
-          explore(&mut lean, name, layout, a, max_held, max_states, &mut stats, &mut findings);
+          explore(&mut lean, name, layout, a, max_held, cap, &mut stats, &mut findings);
         }
         *stats.by_source.entry(class).or_insert(0) += stats.transitions - before;
         if findings.len() > 40 { break; }
